@@ -1,5 +1,6 @@
 import GoRedisModel.Proofs.Table
 import GoRedisModel.Proofs.SourceFacts
+import GoRedisModel.Proofs.SourceShapes
 /-! # C05 — commands reach the handler with exactly the arguments the client sent -/
 namespace GoRedis
 
@@ -409,5 +410,12 @@ example : b!"RENAME" ∉ systemNames ∧ (⟨b!"RENAME", .ss fun k n => .rename 
 theorem C05_source_commands_match_model :
     (Generated.registeredCommands.all fun n => modelCommandNames.contains n) = true ∧
     (modelCommandNames.all fun n => Generated.registeredCommands.contains n) = true := source_commands_match_model
+
+/-- every executor of the current source reads the kinds of arguments, in the order, and reaches the handler
+operations the model (and for the positional commands the independent grammar) says – regenerated from the source and
+decided by the kernel on every run -/
+theorem C05_source_shapes_match_model :
+    (Generated.executorShapes.all fun e => modelShape e.1 == some (readersOf e.2, handlersOf e.2)) = true :=
+  source_shapes_match_model
 
 end GoRedis
